@@ -10,6 +10,7 @@ must be on the wire.
 import os
 import random
 import re
+import threading
 import shutil
 
 from vf.monitors.audit import AUDIT, NET
@@ -72,8 +73,10 @@ def gen_scenario(rng, idx, loopback_base=None):
             scheme = rng.choice(["https", "https", "http"])
             prof = f"{scheme}://{host}/ofx/{'p' + tag if not shared or rng.random() < 0.5 else 'pA'}"
             svc = prof if rng.random() < 0.4 else f"{scheme}://{rng.choice([host, 'stmt.' + host.split('.', 1)[1]])}/svc/{tag}"
-        clients.append({"tag": tag, "profile_url": prof, "service_url": svc, "userid": f"user{tag}{idx}"[:32], "password": f"CANARY-{tag}-{rng.getrandbits(48):012x}",
-                        "org": rng.choice([None, "ORG" + tag]), "fid": rng.choice([None, "77" + tag]), "useragent": rng.choice([None, f"Agent{tag}/1.0"]),
+        clients.append({"tag": tag, "profile_url": prof, "service_url": svc, "password": f"CANARY-{tag}-{rng.getrandbits(48):012x}",
+                        # one client in four has letters outside ASCII in what it signs on with (a body whose length in bytes is not its length in characters)
+                        "userid": (f"us\u00e9r\u6c49{tag}{idx}" if rng.random() < 0.25 else f"user{tag}{idx}")[:32],
+                        "org": rng.choice([None, "ORG" + tag, "\u00d6RG" + tag]), "fid": rng.choice([None, "77" + tag]), "useragent": rng.choice([None, f"Agent{tag}/1.0"]),
                         "version": rng.choice([102, 103, 160, 203, 220]), "cookies": rng.random() < 0.7,
                         "advertise": rng.choice(["single"] * 5 + ["multi", "none"]),
                         # from this operation on (index into ops) the institution publishes a NEWER profile that moves the service URL
@@ -88,11 +91,17 @@ def gen_scenario(rng, idx, loopback_base=None):
     for _ in range(rng.randint(1, 8)):
         c = rng.choice(clients)
         ops.append({"client": c["tag"], "op": rng.choice(OPS), "mode": rng.choice(["normal", "normal", "dryrun", "skip"]),
+                    # one call in four is made from a thread of its own (a worker of the application): the same client, strictly one call at a time
+                    "in_thread": rng.random() < 0.25,
                     # the server (fake transport only) takes the operation's own request and then fails: still exactly one POST of it
                     # ... or (real server only) answers it with a redirect to some other place: whatever the HTTP layer makes of that,
                     # the user's credentials must not travel there
                     "fault": rng.choice([None] * 5 + REDIRECTS) if loopback_base else rng.choice([None] * 12 + ["timeout", "http500", "reset", "timeout"])})
     return {"idx": idx, "clients": clients, "ops": ops, "loopback": bool(loopback_base)}
+
+
+class _Done(Exception):
+    pass
 
 
 class Recorder:
@@ -165,7 +174,41 @@ def run_scenario(ctx, scen, net):
             kw["skip_profile"] = op["mode"] == "skip"
         n0, a0 = len(net.records), AUDIT.mark()
         rec.fault, rec.fault_on_profile = op.get("fault"), op["op"] in ("profile", "profile-override")
+        def call():
+            if op["op"] == "stmt":
+                return cl.request_statements(c["password"], StmtRq(acctid="111", accttype="CHECKING"), CcStmtRq(acctid="222"), **kw)
+            elif op["op"] == "stmtend":
+                return cl.request_statements(c["password"], StmtEndRq(acctid="111", accttype="SAVINGS"), **kw)
+            elif op["op"] == "acctinfo":
+                return cl.request_accounts(c["password"], datetime.datetime(2020, 1, 1, tzinfo=UTC), **kw)
+            elif op["op"] == "tax":
+                return cl.request_tax1099(c["password"], "2019", acctnum="9", **kw)
+            elif op["op"] == "profile-override":
+                # the per-call url= override: this one request goes elsewhere; nothing of it may stick to the client
+                return cl.request_profile(url=c["profile_url"] + "-alt", **kw)
+            return cl.request_profile(**kw)
+
         try:
+            if op.get("in_thread"):
+                box = []
+
+                def runner():
+                    net.set_client(c["tag"])  # the fake transport tells clients apart per thread
+                    try:
+                        box.append(("ok", call().read()))
+                    except Exception as e:  # noqa
+                        box.append(("exc", e))
+
+                th = threading.Thread(target=runner)
+                th.start()
+                th.join(120)
+                ctx.count("ops_called_from_a_worker_thread")
+                if not box:
+                    raise TimeoutError("call in worker thread did not return within 120 s")
+                if box[0][0] == "exc":
+                    raise box[0][1]
+                outcome = box[0]
+                raise _Done()
             if op["op"] == "stmt":
                 r = cl.request_statements(c["password"], StmtRq(acctid="111", accttype="CHECKING"), CcStmtRq(acctid="222"), **kw)
             elif op["op"] == "stmtend":
@@ -180,6 +223,8 @@ def run_scenario(ctx, scen, net):
             else:
                 r = cl.request_profile(**kw)
             outcome = ("ok", r.read())
+        except _Done:
+            pass
         except Exception as e:
             outcome = ("exc", repr(e))
         net.set_client(None)
